@@ -101,14 +101,32 @@ def _job(job):
     return problems
 
 
+SPECIAL_TEXTS = [
+    # texts a spreadsheet producer might take for something else than text
+    "=1+1", "{=1+1}", "+1", "-1", "@x", "mailto:joe@example.com", "internal:Sheet1!A1", "external:c:/x/y.xlsx", "http://example.com/",
+    "https://example.com/?q=" + "a" * 2100, "ftp://example.com", "file://x", "#N/A", "#DIV/0!", "TRUE", "false", "1e5", "1.0", "007",
+    "0x10", "2020-02-29", "12:00:00", "1/2", "50%", "_x0041_", "a_x000D_b", "\x01", "\x00b", "é€名", "<&>\"'", " lead", "trail ",
+    "x\ty", "line\nbreak", "x" * 32767,
+]
+
+
 def writer_round_trip(report, folder):
-    """A table of strings written with XlsxRowWriter reads back identically."""
-    from cutplace import rowio
+    """
+    A table of strings written with XlsxRowWriter reads back identically: every special text alone and beside others, random
+    tables; a text no Excel cell can hold (more than 32767 characters) is refused
+    with a data-format error and nothing of its row is written.
+    """
+    from cutplace import errors, rowio
     rng = core.rng(16)
     alphabet = ["a", "B", " ", "é", "<&>", "=1+1", "1.0", "007", "x\ty", "line\nbreak", "'", '"']
+    tables = [[[text, "end"]] for text in SPECIAL_TEXTS] + [[["first", text]] for text in SPECIAL_TEXTS]
+    tables.append([[text] for text in SPECIAL_TEXTS])
+    tables.append([list(SPECIAL_TEXTS[:20]), list(reversed(SPECIAL_TEXTS[:20]))])
     for index in range(60):
         width = rng.randrange(1, 5)
-        table = [[rng.choice(alphabet) + rng.choice(["", "z"]) for _ in range(width)] for _ in range(rng.randrange(0, 6))]
+        pool = alphabet if index % 2 else alphabet + SPECIAL_TEXTS[:-1]
+        tables.append([[rng.choice(pool) + rng.choice(["", "z"]) for _ in range(width)] for _ in range(rng.randrange(0, 6))])
+    for index, table in enumerate(tables):
         path = os.path.join(folder, "w%d.xlsx" % index)
         with rowio.XlsxRowWriter(path) as writer:
             writer.write_rows(table)
@@ -116,7 +134,36 @@ def writer_round_trip(report, folder):
         report.replayed += 1
         if back != table:
             report.violation("c16", {"writer_table": table}, table, back,
-                             "XlsxRowWriter: table %r reads back as %r" % (table, back))
+                             "XlsxRowWriter: table %r reads back as %r" % (_short(table), _short(back)))
+            break
+        os.remove(path)
+    # what the file format cannot hold is refused, not truncated; the writer goes on with the next row
+    too_long = "y" * 32768
+    for position in (0, 1):
+        path = os.path.join(folder, "long%d.xlsx" % position)
+        row = ["ok", "ok"]
+        row[position] = too_long
+        report.replayed += 1
+        with rowio.XlsxRowWriter(path) as writer:
+            writer.write_row(["before", "x"])
+            try:
+                writer.write_row(row)
+                outcome = "accepted"
+            except errors.DataFormatError:
+                outcome = "refused"
+            except Exception as error:  # noqa
+                outcome = "%s: %s" % (type(error).__name__, str(error)[:100])
+            writer.write_row(["after", "z"])
+        back = list(rowio.excel_rows(path))
+        expected = [["before", "x"], ["after", "z"]]
+        if outcome != "refused" or back != expected:
+            report.violation("c16", {"writer_table": "text of 32768 characters in column %d" % (position + 1)}, expected, None,
+                             "XlsxRowWriter: a row with a text of 32768 characters (an Excel cell holds 32767) is %s and the file "
+                             "reads back as %r instead of %r" % (outcome, _short(back), expected))
+
+
+def _short(table):
+    return [[cell if len(cell) <= 40 else "%s... (%d characters)" % (cell[:20], len(cell)) for cell in row] for row in table]
 
 
 def shortest_digits(x):
